@@ -76,6 +76,9 @@ type Program struct {
 	Host       string
 	AllocOther bool
 	ReupAfter  int
+	// EnqueueAll: all launches are enqueued before the queue is drained
+	// (otherwise every kernel is drained before the next is enqueued)
+	EnqueueAll bool
 }
 
 // feature names
@@ -99,7 +102,9 @@ var allFeatures = []string{
 	// every kernel reads the same LDS words first and writes them afterwards
 	"lds_rbw",
 	// host-API shapes (host.go)
-	"host_wl", "host_wc", "host_three", "host_2proc", "host_alloc_other", "reup",
+	"host_wl", "host_wc", "host_three", "host_2proc", "host_alloc_other", "reup", "host_enqueue_all",
+	// scalar loads of what the previous kernel stored (motif.go smemDev)
+	"smem_dev",
 }
 
 // features that exist only for one architecture
@@ -972,6 +977,11 @@ func (x *gen) runScript(script []string) {
 			line = strings.TrimSpace(line[3:])
 		}
 		switch {
+		case scan(line, "sdev %d %d %d", &a, &b, &c):
+			// scalar load of a dwords at byte b of the previous kernel's output; c:
+			// 0 = the region of work-item slot 3 (all groups read the same line),
+			// 1 = the region of the work-group's first work-item
+			x.smemDev(a, b, c)
 		case scan(line, "ldsrbw %s %d %d %d", &kind, &a, &b, &c):
 			// c: bit 0 = extra region, bit 1 = narrow write
 			x.ldsRBW(kind, a, b, c&1 != 0, c&2 != 0)
@@ -1231,6 +1241,7 @@ func BuildProgram(spec ProgSpec) (prog *Program, err error) {
 		}
 		k := newKB(arch, spec.Arch == "cdna3", geoK, abi, oStr, iStr, iShift)
 		k.rev = chain && ki > 0
+		k.inPrev = inFrom >= 0
 		k.lean = spec.Lean
 		// what happens between the last store and s_endpgm (own PRNG stream)
 		for _, t := range []string{"nowait", "smem", "flat_ld", "flat_st", "lds"} {
@@ -1389,6 +1400,9 @@ func BuildProgram(spec ProgSpec) (prog *Program, err error) {
 		if spec.Script != nil {
 			nb = 0
 			x.runScript(spec.Script)
+		}
+		if k.inPrev && allow["smem_dev"] && spec.Script == nil && (force["smem_dev"] || r.Bool()) {
+			x.smemDev(0, -1, -1)
 		}
 		if ldsPair {
 			x.use("multi_kernel")
